@@ -47,6 +47,12 @@ class HarnessError(Exception):
     """Something is wrong with the harness itself (exit 2, never a violation)."""
 
 
+class _BudgetStop(KeyboardInterrupt):
+    """Ends a Hypothesis run at once when the wall budget of a sub-check (or of shrinking) is used up.
+    Hypothesis lets KeyboardInterrupt through without treating it as a failing example, so neither further
+    generation (the expensive part for the larger strategies) nor shrinking goes on after the budget."""
+
+
 class Sub(object):
     def __init__(self, name, check, strategy=None, enumerate=None, custom=None, quick=200,
                  thorough=2000, workers_quick=2, workers_thorough=16, budget_quick=60.0,
@@ -247,9 +253,9 @@ def _run_hyp(sub, tier, seed, st):
             return
         if st.failure is None and now - t0 > budget:
             st.budget_exhausted = True
-            return
+            raise _BudgetStop()
         if st.failure is not None and now - state["fail_at"] > shrink_budget:
-            return  # stop shrinking: hypothesis will give up; the best failure so far is kept
+            raise _BudgetStop()   # stop shrinking: the best failure so far is kept
         r = run_check(sub, case)
         if r[0] == "ok":
             if st.failure is None:
@@ -272,6 +278,8 @@ def _run_hyp(sub, tier, seed, st):
                     phases=[Phase.explicit, Phase.generate, Phase.target, Phase.shrink])(test)
     try:
         test()
+    except _BudgetStop:
+        pass
     except Violation:
         pass
     except HarnessError:
